@@ -6,6 +6,7 @@ import (
 	"context"
 	"fmt"
 	"strings"
+	"sync"
 	"testing"
 	"time"
 
@@ -499,9 +500,77 @@ func TestCountFields(t *testing.T) {
 	ev.Label("sweep:count-fields")
 }
 
+// TestDecodersConcurrently: generated records (all ID-string encodings) are decoded
+// by several goroutines at once, each into its own layer from its own input; every
+// decode must still yield exactly its own record's values.
+func TestDecodersConcurrently(t *testing.T) {
+	const workers = 8
+	rounds := ev.Pick(3000, 60000)
+	type job struct {
+		f    ref.FSR
+		wire []byte
+	}
+	jobs := make([]job, workers)
+	for i := range jobs {
+		f := hx.GenFSR().Example(int(ev.Seed)*131 + i)
+		// packed encodings with long strings exercise the table-driven decoders
+		f.ID.Enc = []byte{ref.Enc6Bit, ref.EncBCDPlus, ref.Enc6Bit, ref.Enc8Bit}[i%4]
+		n := 9 + i*3
+		if f.ID.Enc == ref.Enc8Bit && n > 16 {
+			n = 16
+		}
+		f.ID.Codes = make([]byte, n)
+		for k := range f.ID.Codes {
+			switch f.ID.Enc {
+			case ref.EncBCDPlus:
+				f.ID.Codes[k] = byte((k + i) % 10)
+			case ref.Enc6Bit:
+				f.ID.Codes[k] = byte((k*5 + i*7) % 64)
+			default:
+				f.ID.Codes[k] = byte(0x41 + (k+i)%26)
+			}
+		}
+		jobs[i] = job{f, f.Body()}
+	}
+	var wg sync.WaitGroup
+	errs := make([]error, workers)
+	start := make(chan struct{})
+	for i := range jobs {
+		wg.Add(1)
+		go func(i int) {
+			defer wg.Done()
+			<-start
+			l := &ipmi.FullSensorRecord{}
+			in := exact(jobs[i].wire)
+			for r := 0; r < rounds && errs[i] == nil; r++ {
+				if err := l.DecodeFromBytes(in, gopacket.NilDecodeFeedback); err != nil {
+					errs[i] = fmt.Errorf("worker %d round %d: %v", i, r, err)
+					return
+				}
+				if err := hx.CmpFSR(&jobs[i].f, l); err != nil {
+					errs[i] = fmt.Errorf("worker %d round %d (while %d other goroutines decode other records): %v", i, r, workers-1, err)
+					return
+				}
+			}
+		}(i)
+	}
+	close(start)
+	wg.Wait()
+	for i := 0; i < workers*rounds; i += rounds {
+		ev.Eval()
+	}
+	for _, err := range errs {
+		if err != nil {
+			ev.Violation("TestDecodersConcurrently", map[string]any{"workers": workers, "rounds": rounds}, err.Error())
+			t.Fatalf("%v", err)
+		}
+	}
+	ev.Label("decode:concurrent-goroutines")
+}
+
 func TestCoverage(t *testing.T) {
 	ev.RequireLabels(t, 1, "reject:checksum", "reject:covered-byte", "reject:length-field", "decode:GetSessionInfoRsp/3", "decode:GetSessionInfoRsp/6", "decode:GetSessionInfoRsp/18",
 		"decode:FullSensorRecord/enc0", "decode:FullSensorRecord/enc1", "decode:FullSensorRecord/enc2", "decode:FullSensorRecord/enc3", "decode:RAKPMessage2/status0=true",
-		"decode:DCMICaps/param2/v1.0", "decode:DCMICaps/param2/v1.5", "api:sensor-info:shorter-page-after-longer", "api:value-survives-next-command", "api-reject:mode0", "api-reject:mode1", "api-reject:mode2", "sweep:checksums", "sweep:count-fields")
+		"decode:DCMICaps/param2/v1.0", "decode:DCMICaps/param2/v1.5", "api:sensor-info:shorter-page-after-longer", "api:value-survives-next-command", "api-reject:mode0", "api-reject:mode1", "api-reject:mode2", "sweep:checksums", "sweep:count-fields", "decode:concurrent-goroutines")
 	_ = context.Background
 }
